@@ -1,3 +1,9 @@
 From Coq Require Import ExtrOcamlBasic.
-From Draco Require Import Base.DriverSupport Model.Varint.
-Extraction "m.ml" ds_api enc_varint_u dec_varint_u enc_varint_s dec_varint_s enc_le dec_le.
+From Draco Require Import Base.DriverSupport Model.Varint Model.BitBuffer Model.Ans Model.BitCoders Model.AdaptiveProb.
+Extraction "m.ml" ds_api enc_varint_u dec_varint_u enc_varint_s dec_varint_s enc_le dec_le
+  enc_items dec_items
+  flatten read_n read_ops
+  ransbit_encode ransbit_start ransbit_next
+  adaptive_encode adaptive_start adaptive_next clamp_probability update_probability d_half
+  direct_encode direct_start direct_next direct_lsb
+  folded_encode folded_start folded_read folded_bit.
